@@ -16,7 +16,7 @@ FUNCS = [('giscanner/annotationparser.py',
 def conditions(tier):
     import h_c11 as H
     quick = tier == 'quick'
-    T = 150 if quick else 1500
+    T = 240 if quick else 1500
     conds = []
     conds.append(ch.Cond('h_c11', 'special', [('k', 'int')], pre=['0 <= k < %d' % len(H.SPECIAL)], timeout=T,
                          name='degenerate blocks',
